@@ -111,8 +111,10 @@ impl futures::io::AsyncRead for PatternSource {
 pub enum Cap {
     /// `new` (10 MiB buffer, 65551-byte message buffer)
     Default,
-    /// `with_capacity(65551, 65551, ..)`: the smallest the constructor's debug_assert allows
+    /// `with_capacity(65551, 65551, ..)`: the smallest that holds every declared length
     Minimal,
+    /// `with_capacity(buffer_capacity, message_max_len, ..)` for streams whose messages all fit
+    Custom(usize, usize),
 }
 
 enum Next {
@@ -216,6 +218,7 @@ pub fn run_blocking(stream: &Arc<Vec<u8>>, storage: bool, pat: Pattern, cap: Cap
     let mut reader = match cap {
         Cap::Default => DltMessageReader::new(src, storage),
         Cap::Minimal => DltMessageReader::with_capacity(65_551, 65_551, src, storage),
+        Cap::Custom(c, m) => DltMessageReader::with_capacity(c, m, src, storage),
     };
     let mut stats = BulkStats::default();
     let mut o = 0usize;
@@ -242,8 +245,13 @@ pub fn run_async(stream: &Arc<Vec<u8>>, storage: bool, pat: Pattern, cap: Cap, f
     let mut reader = match cap {
         Cap::Default => DltStreamReader::new(src, storage),
         Cap::Minimal => DltStreamReader::with_capacity(65_551, 65_551, src, storage),
+        Cap::Custom(c, m) => DltStreamReader::with_capacity(c, m, src, storage),
     };
-    let waker = futures::task::noop_waker();
+    // a waker that counts: the scripted source wakes synchronously before it answers Pending, so
+    // a poll that returns Pending without any wake-up since it started has arranged no wake-up
+    // at all and would hang every wake-driven executor
+    let wakes = Arc::new(CountWaker::default());
+    let waker = futures::task::waker(wakes.clone());
     let mut cx = Context::from_waker(&waker);
     let mut stats = BulkStats::default();
     let mut o = 0usize;
@@ -255,20 +263,25 @@ pub fn run_async(stream: &Arc<Vec<u8>>, storage: bool, pat: Pattern, cap: Cap, f
         let got = catch(|| {
             let mut fut = Box::pin(read_message(&mut reader, filter));
             loop {
+                let before = wakes.0.load(std::sync::atomic::Ordering::Relaxed);
                 match fut.as_mut().poll(&mut cx) {
-                    Poll::Ready(r) => return Some(r),
+                    Poll::Ready(r) => return Ok(r),
                     Poll::Pending => {
+                        if wakes.0.load(std::sync::atomic::Ordering::Relaxed) == before {
+                            return Err("lost wake-up");
+                        }
                         polls += 1;
                         if polls > budget {
-                            return None;
+                            return Err("livelock");
                         }
                     }
                 }
             }
         });
         let got = match got {
-            Ok(None) => return Err(format!("a read_message future was still pending after {} polls in total (livelock) at result {}", budget, idx)),
-            Ok(Some(r)) => Ok(r),
+            Ok(Err("lost wake-up")) => return Err(format!("at result {} the read_message future returned Poll::Pending without any wake-up having been arranged (lost wake-up: a wake-driven executor would never poll it again)", idx)),
+            Ok(Err(_)) => return Err(format!("a read_message future was still pending after {} polls in total (livelock) at result {}", budget, idx)),
+            Ok(Ok(r)) => Ok(r),
             Err(p) => Err(p),
         };
         match step(stream, o, storage, filter, idx, got, &mut stats)? {
@@ -281,6 +294,14 @@ pub fn run_async(stream: &Arc<Vec<u8>>, storage: bool, pat: Pattern, cap: Cap, f
     stats.deliveries = c.0;
     stats.disturbances = c.1;
     Ok(stats)
+}
+
+#[derive(Default)]
+pub struct CountWaker(pub std::sync::atomic::AtomicU64);
+impl futures::task::ArcWake for CountWaker {
+    fn wake_by_ref(arc_self: &Arc<Self>) {
+        arc_self.0.fetch_add(1, std::sync::atomic::Ordering::Relaxed);
+    }
 }
 
 pub fn run_reader(is_async: bool, stream: &Arc<Vec<u8>>, storage: bool, pat: Pattern, cap: Cap, filter: Option<&ProcessedDltFilterConfig>) -> Result<BulkStats, String> {
@@ -325,7 +346,7 @@ pub fn verbose_message(seed: usize, storage: bool, out: &mut Vec<u8>) {
 
 /// the C07 / C08 / C09 bulk families; `prefix` is "c07", "c08" or "c09"
 pub fn run_bulk_families(ctx: &Ctx, prefix: &str, is_async: bool) {
-    run_bulk_selected(ctx, prefix, is_async, &["len_sweep", "long_streams", "default_capacity", "disturbed"])
+    run_bulk_selected(ctx, prefix, is_async, &["len_sweep", "long_streams", "default_capacity", "disturbed", "small_capacity"])
 }
 
 pub fn run_bulk_selected(ctx: &Ctx, prefix: &str, is_async: bool, which: &[&str]) {
@@ -339,7 +360,7 @@ pub fn run_bulk_selected(ctx: &Ctx, prefix: &str, is_async: bool, which: &[&str]
     let key_of = |why: &str| -> String {
         if why.contains("PANICKED") {
             format!("{} panics on a large stream", who)
-        } else if why.contains("livelock") {
+        } else if why.contains("livelock") || why.contains("lost wake-up") {
             format!("{} never completes", who)
         } else {
             format!("{} result differs from cutting the stream", who)
@@ -373,7 +394,7 @@ pub fn run_bulk_selected(ctx: &Ctx, prefix: &str, is_async: bool, which: &[&str]
                 }
                 Err(why) => viol(loc, &key_of(&why), format!("short message, message of declared length {}, short message{}; {}", l, if storage { ", storage headers" } else { "" }, pat.describe(is_async)), why),
             }
-        }));
+        }).trace(1500));
     }
     // (2) long streams against the minimal-capacity buffers: every phase of the buffer boundary
     if which.contains(&"long_streams") {
@@ -418,7 +439,7 @@ pub fn run_bulk_selected(ctx: &Ctx, prefix: &str, is_async: bool, which: &[&str]
                 }
                 Err(why) => viol(loc, &key_of(&why), format!("{} bytes: first message of {} bytes, then messages of {} bytes alternating with 33-byte log messages{}; {}; filter: {}", s.len(), 8 + shift, size, if storage { ", storage headers" } else { "" }, pat.describe(is_async), f.0), why),
             }
-        }));
+        }).trace(60));
     }
     // (3) the default constructor: streams longer than its 10 MiB buffer
     if which.contains(&"default_capacity") {
@@ -459,7 +480,7 @@ pub fn run_bulk_selected(ctx: &Ctx, prefix: &str, is_async: bool, which: &[&str]
                 }
                 Err(why) => viol(loc, &key_of(&why), format!("default-capacity reader, {} bytes: first message of {} bytes, then messages of {} bytes{}; {}; filter: {}", s.len(), 8 + shift, size, if storage { ", storage headers" } else { "" }, pat.describe(is_async), f.0), why),
             }
-        }).chunk(1));
+        }).chunk(1).trace(2));
     }
     // (4) disturbance-heavy schedules on large messages
     if which.contains(&"disturbed") {
@@ -486,5 +507,40 @@ pub fn run_bulk_selected(ctx: &Ctx, prefix: &str, is_async: bool, which: &[&str]
                 Err(why) => viol(loc, &key_of(&why), format!("short message, message of {} bytes, short message{}; {}", l, if storage { ", storage headers" } else { "" }, pat.describe(is_async)), why),
             }
         }).chunk(1));
+    }
+    // (5) readers built with small capacities (every message still fits message_max_len)
+    if which.contains(&"small_capacity") {
+        let caps: Vec<(usize, usize)> = vec![(64, 64), (65, 64), (127, 64), (128, 64), (300, 300), (599, 300), (600, 300), (4096, 4096), (4097, 4096), (8191, 4096), (8192, 4096), (8193, 4096), (20_000, 4096)];
+        let pats = [Pattern { chunk: 0, disturb_every: 0 }, Pattern { chunk: 7, disturb_every: 0 }, Pattern { chunk: 1, disturb_every: 2 }, Pattern { chunk: 1460, disturb_every: 3 }];
+        // message sizes relative to message_max_len m (minus the storage header): tiny, a quarter, just over half, m-1, m
+        let sp = Space::new(&[caps.len(), 5, 5, 5, 2, pats.len()]);
+        let s2 = sp.clone();
+        let caps = &caps;
+        ctx.run_family(Family::new(format!("{}.bulk.small_capacity", prefix), sp.size(), format!("readers built with_capacity(buffer_capacity, message_max_len) for {:?}: ALL sequences of three messages with sizes in {{8, m/4, m/2+1, m-1, m}} (m = message_max_len minus the storage header), repeated to fill more than three buffers, x storage mode x 4 schedules", caps), move |i, loc| {
+            let c = s2.coords(i);
+            let (cap, max) = caps[c[0]];
+            let storage = c[4] == 1;
+            let m = max - if storage { 16 } else { 0 };
+            let size_of = |k: usize| -> usize { [8, (m / 4).max(8), m / 2 + 1, m - 1, m][k].max(4) };
+            let sizes = [size_of(c[1]), size_of(c[2]), size_of(c[3])];
+            let pat = pats[c[5]];
+            let mut s = vec![];
+            let mut k = 0usize;
+            while s.len() < 3 * cap + 2 * max || k < 6 {
+                message_of_len(sizes[k % 3], k, storage, &mut s);
+                k += 1;
+            }
+            let s = Arc::new(s);
+            loc.evals += 1;
+            loc.traces += 1;
+            loc.state(i, true);
+            match run_reader(is_async, &s, storage, pat, Cap::Custom(cap, max), None) {
+                Ok(st) => {
+                    loc.transitions += st.deliveries + st.disturbances;
+                    loc.outcome_n("messages delivered", st.messages);
+                }
+                Err(why) => viol(loc, &key_of(&why), format!("with_capacity({}, {}), messages of {:?} bytes repeated ({} bytes){}; {}", cap, max, sizes, s.len(), if storage { ", storage headers" } else { "" }, pat.describe(is_async)), why),
+            }
+        }).trace(300));
     }
 }
